@@ -16,6 +16,12 @@ namespace Hio.Timer
 inductive Exn | typeError | retroTimerError
 deriving Repr, DecidableEq
 
+/-- `float(duration) if duration is not None else <old>` -/
+def durOr (d : Option Int) (old : Int) : Int :=
+  match d with
+  | some d => d
+  | none => old
+
 /-! ## `Tymer` — virtual timer on a `Tymist`'s tyme -/
 
 /-- the tymists a tymer can be wound to: their current tyme and tock -/
@@ -66,9 +72,7 @@ def expired (w : TWorld) (t : Tymer) : Except Exn Bool :=
 
 /-- `start(duration, start)`; returns the new tymer and the returned `._start` -/
 def startOp (w : TWorld) (t : Tymer) (dur start : Option Int) : Except Exn (Tymer × Int) :=
-  let d := match dur with
-    | some d => d
-    | none => t.duration
+  let d := durOr dur t.duration
   match start, t.now w with
   | some s, _ => .ok ({ t with start := s, stop := s + d }, s)
   | none, some n => .ok ({ t with start := n, stop := n + d }, n)
@@ -80,9 +84,7 @@ def restartOp (w : TWorld) (t : Tymer) (dur : Option Int) : Except Exn (Tymer ×
 
 /-- `Tymer(tymth=…, duration=dur, start=start)` -/
 def new (w : TWorld) (wound : Option Nat) (dur start : Option Int) : Tymer :=
-  let d := match dur with
-    | some d => d
-    | none => Gen.tymerDuration
+  let d := durOr dur Gen.tymerDuration
   let s := match start, wound with
     | some s, _ => s
     | none, some i => w.tyme i
@@ -169,10 +171,7 @@ def expired (m : Mono) (r : Int) : Except Exn (Bool × Mono) :=
 
 /-- `start(duration, start=s)` with an explicit start: `._last` is not touched -/
 def startAt (m : Mono) (dur : Option Int) (s : Int) : Mono :=
-  let d := match dur with
-    | some d => d
-    | none => m.duration
-  { m with start := s, stop := s + d }
+  { m with start := s, stop := s + durOr dur m.duration }
 
 /-- `start(duration)` at the clock reading `r` (fixed code: `._last` is resynchronised to `r`) -/
 def startNow (m : Mono) (dur : Option Int) (r : Int) : Mono :=
